@@ -100,7 +100,12 @@ def do_rejected(r: c18.Runner, o: list, lab: Labels) -> str:
             lab.tag("grandchild-collision")
             return L.cls("LInner")(items=(*ok[:k], x, *ok[k:]), origin=w.origin(0))
         if kind == "replace_dup":
-            n = w.sel(a, lambda x: type(x).__name__ == "LInner" and len(x.items) + len(x.lst) >= 1)
+            n = w.sel(a, lambda x: type(x).__name__ in ("LInner", "LFalsy") and len(x.items) + len(x.lst) >= 1)
+            under_falsy = [x for x in w.held if type(x).__name__ in ("LInner", "LFalsy") and len(x.items) + len(x.lst) >= 1
+                           and x.parent is not None and type(x.parent).__name__ == "LFalsy"]
+            if under_falsy and c % 3:
+                n = under_falsy[a % len(under_falsy)]  # the receiver's parent is a falsy node
+                lab.tag("receiver-under-falsy-parent")
             if n is None:
                 raise NotApplicable
             lab.tag_if(not n.detached, "attached-receiver")
@@ -110,7 +115,7 @@ def do_rejected(r: c18.Runner, o: list, lab: Labels) -> str:
                 return n.replace(items=(*n.items, x) if x in n.items else (x,), lst=[x] if x not in n.items else list(n.lst))
             return n.replace(items=(x, *[y for y in n.items if y is not x], x))
         if kind == "replace_parent_collision":
-            n = w.sel(a, lambda x: type(x).__name__ == "LInner")
+            n = w.sel(a, lambda x: type(x).__name__ in ("LInner", "LFalsy"))
             if n is None:
                 raise NotApplicable
             excl = {id(y) for y in E.subtree(n)} | {id(y) for y in w.ancestors_of(n)}
@@ -216,26 +221,47 @@ def do_rejected(r: c18.Runner, o: list, lab: Labels) -> str:
             rid = removable[c % len(removable)].id if removable and c % 2 else None
             lab.tag_if(rid is not None, "removal-before-failure")
 
+            fail_late = c % 2 == 0  # the rule fails after the node's own subtree was processed
+            rewrite = (a + b) % 2 == 0  # leaves visited before the failing node are rewritten
+            lab.tag_if(rewrite, "rewrites-before-failure")
+
             class V(ASTTransformVisitor):
                 def generic_visit(self, node):  # noqa: ANN001
                     if rid is not None and node.id == rid:
                         return None
+                    if rewrite and node.id != tid and type(node).__name__ in ("LLeaf", "LSub"):
+                        return node.replace(v=int(node.v) + 10)
                     if node.id == tid:
                         if kind == "transform_raises":
+                            if fail_late:
+                                super().generic_visit(node)  # the node's subtree is processed first
                             raise RuntimeError("rule failed")
                         return L.cls("LInner")(origin=world.origin(0), v=3, create_detached=True)
                     return super().generic_visit(node)
 
-            return V().transform(n)
+            vis = V()
+            if (a + b + c) % 3 == 0:
+                # the same visitor object is used again after a failed run
+                lab.tag("visitor-reused-after-failure")
+                try:
+                    vis.transform(n)
+                except errs as e1:
+                    e1.__traceback__ = None
+            return vis.transform(n)
         raise ValueError(kind)
 
     prepared: dict = {}
     if kind == "replace_with_type":
         prepared["inner"] = w.hold(L.cls("LInner")(origin=w.origin(0), v=2))  # created before the snapshot
     if kind == "shared_detached_twice":
-        sh = L.cls("LLeaf")(v=b % 3, origin=w.origin(0), create_detached=True)
-        if b % 2:
-            sh = L.cls("LInner")(req=sh, origin=w.origin(0), create_detached=True)  # a shared subtree
+        if b % 3 == 2:
+            # the shared node is an *attached root* (it may be adopted by one new parent only)
+            sh = w.hold(L.cls("LLeaf")(v=b % 4, origin=w.origin(0)))
+            lab.tag("shared-attached-root")
+        else:
+            sh = L.cls("LLeaf")(v=b % 3, origin=w.origin(0), create_detached=True)
+            if b % 3 == 1:
+                sh = L.cls("LInner")(req=sh, origin=w.origin(0), create_detached=True)  # a shared subtree
         prepared["p1"] = L.cls("LInner")(items=(sh,), v=1, origin=w.origin(0), create_detached=True)
         prepared["p2"] = L.cls("LInner")(opt=sh, v=2, origin=w.origin(0), create_detached=True) if a % 2 else \
             L.cls("LInner")(lst=[sh], v=2, origin=w.origin(0), create_detached=True)
